@@ -102,7 +102,8 @@ macro_rules! ctor_harness {
     ($($name:ident = $body:ident<$d:literal, $a:literal, $b:literal>;)*) => {
         $(
             #[kani::proof]
-            #[kani::unwind(5)]
+            #[kani::unwind(4)]
+            #[kani::stub(<crate::types::ExpectedTypeList as std::convert::From<crate::types::Type>>::from, crate::types::verif_kani::c08::expected_type_list_from_type__contract)]
             fn $name() {
                 $body::<$d, $a, $b>()
             }
